@@ -624,8 +624,10 @@ def write_evidence(ctx, spec, results, samples, t_start, status, violations, val
         "wall_s": round(time.time() - t_start, 1),
         "violations": len(violations),
     }
-    os.makedirs(os.path.join(VERIF, "evidence"), exist_ok=True)
-    json.dump(ev, open(os.path.join(VERIF, "evidence", prop + ".json"), "w"), indent=1)
+    # evidence describes /repo; a run pointed at another checkout (VERIF_REPO, development only) must not overwrite it
+    evdir = os.path.join(VERIF, "evidence") if os.path.realpath(REPO) == "/repo" else os.path.join(VERIF, "out", "evidence-other-tree")
+    os.makedirs(evdir, exist_ok=True)
+    json.dump(ev, open(os.path.join(evdir, prop + ".json"), "w"), indent=1)
 
 
 if __name__ == "__main__":
